@@ -235,14 +235,18 @@ def c15(tier):
         arch = dict(ARCHETYPES)[k]
         for ctext, msg in sp["leak"][:10]:
             res.unconfirmed.append({"e1": "unrequested non-private item", "config": ctext, "msg": msg})
-        for hname, visset in sp["helpers"].items():
+        for hq, visset in sp["helpers"].items():
+            # "Owner::name" for members of inherent impls of other types (iterator structs); plain name for members of `impl E`
+            owner, _, hname = hq.rpartition("::")
+            owner = owner or "E"
             reps = sp["classes"].get(hname, {}).get("vis", [])
+            nonpriv = any(v.strip("`") for v in visset.split(","))
             for cl in reps:
                 cfg = e1.cfg_from_text(cl["rep"], zz=True)
                 enum_txt = arch.replace("pub enum", "pub enum")
                 base = ("#![allow(warnings)]\npub mod inner {\n use enum_tools::EnumTools;\n #[derive(Clone, Copy, EnumTools)]\n #[enum_tools(%s)]\n %s\n"
-                        " #[cfg(p_inner)] fn probe() { let _ = E::%s; }\n}\n#[cfg(p_root)] fn probe() { let _ = inner::E::%s; }\n"
-                        % (cfg.attr_lines()[0], enum_txt, hname, hname))
+                        " #[cfg(p_inner)] fn probe() { let _ = %s::%s; }\n}\n#[cfg(p_root)] fn probe() { let _ = inner::%s::%s; }\n"
+                        % (cfg.attr_lines()[0], enum_txt, owner, hname, owner, hname))
                 helper_cases.append((k, hname, cfg, base, "p_inner", True))
                 helper_cases.append((k, hname, cfg, base, "p_root", False))
     hv = e2.compile_many([{"src": c[3], "cfgs": [c[4]]} for c in helper_cases])
